@@ -397,11 +397,18 @@ static int check(void) {
   /* The audit has just established that the node structure is exactly what canon()
   ** prints (shape, colours, keys, values, parent links, nitems, types), and the answers
   ** to len/mem/get/iteration are a function of that structure alone, so the black-box
-  ** oracle is evaluated once per distinct concrete state (memo=0 turns this off). */
+  ** comparison with the reference is evaluated once per distinct pair (concrete state,
+  ** reference bindings) - not once per concrete state: an operation that lands in a
+  ** well-formed but *wrong* tree meets a different reference and is compared again.
+  ** (memo=0 turns the memoisation off.) */
   int fresh = 1;
   if (memo) {
-    char cb[1024];
-    canon(cb, sizeof cb);
+    char cb[2048];
+    size_t o = canon(cb, sizeof cb);
+    o += (size_t)snprintf(cb + o, sizeof cb - o, " |");
+    for (int i = 0; i < K && o + 8 < sizeof cb; i++) cb[o++] = MA.present[i] ? (char)('0' + MA.val[i]) : '-';
+    if (TB) { cb[o++] = '|'; for (int i = 0; i < K && o + 8 < sizeof cb; i++) cb[o++] = MB.present[i] ? (char)('0' + MB.val[i]) : '-'; }
+    cb[o] = 0;
     if (!checked.cap) vf_set_init(&checked, 1 << 12);
     fresh = vf_set_put(&checked, cb, 1) < 0;
   }
